@@ -17,6 +17,7 @@ def main():
     ap.add_argument("--tier", default="quick")
     ap.add_argument("--twice", action="store_true")
     ap.add_argument("--budget", default=None)
+    ap.add_argument("--demo", default=None, help="demonstration program: must exit non-zero on the changed copy and 0 on /repo")
     a = ap.parse_args()
     scratch = tempfile.mkdtemp(prefix="pmc_mut_", dir="/tmp")
     repo = os.path.join(scratch, "repo")
@@ -40,6 +41,12 @@ def main():
             if r.returncode != 0:
                 print(r.stdout[-3000:])
                 rc_all = 4
+        if a.demo:
+            env = dict(os.environ, PANOPTICA_CITATION_REMINDER="false")
+            for label, root in (("changed", repo), ("unchanged", "/repo")):
+                env["PYTHONPATH"] = root
+                r = subprocess.run(["/venv/bin/python", os.path.abspath(a.demo)], cwd=root, capture_output=True, text=True, env=env, timeout=1800)
+                print(f"DEMO on {label} tree: exit={r.returncode}", (r.stdout.strip().splitlines() or [""])[-1][:200])
         # keep committed evidence/replays intact
         bak = tempfile.mkdtemp(prefix="pmc_evbak_", dir="/tmp")
         for d in ("evidence", "replays"):
